@@ -255,13 +255,16 @@ def seqnum_table(ctx, C, M_code):
 
 
 def ack_fields(ctx):
-    """AckExact / AckDecode are clauses of the connection trace specification; run it when it exists."""
-    try:
-        from props import conn_judge
-    except ImportError:
-        ctx.note("ack-field clauses (AckExact, AckDecode) are checked by the connection trace judge (C04/C07)")
-        return
-    conn_judge.run_for(ctx, clauses=("ack",))
+    """AckExact / AckDecode / window clauses (B_ack, V_acked, V_win, V_mcur, B_seq, S_seq) of the connection trace specification,
+    on recorded executions of two real endpoints that cross the wrap."""
+    from props import conn_judge as J
+    q = ctx.quick
+    J.run_scenarios(ctx, "C08", [
+        dict(name="ack-fields-lossy", n=3 if q else 24, nticks=700 if q else 2500, heal_after=500 if q else 2000,
+             policy=dict(p_loss=0.25, p_dup=0.1, maxdelay=20, lens=[4, 20, 100, 600], retries=(0, 1, -1)), world=dict(start_seq="alt")),
+        dict(name="ack-fields-wrap", n=2 if q else 12, nticks=600 if q else 2500, heal_after=450 if q else 2000,
+             policy=dict(p_loss=0.4, p_send=0.6, maxdelay=6, lens=[4, 5]), world=dict(start_seq=65500)),
+    ])
 
 
 def replay(ctx, doc):
